@@ -20,6 +20,7 @@ type caseC02 struct {
 	Rel   string  `json:"rel"`             // how Q relates to P
 	Alias string  `json:"alias,omitempty"` // "" | self (argument is the receiver) | copy
 	Nil   bool    `json:"nil,omitempty"`
+	Aim   *Aim    `json:"aim,omitempty"` // white-box: drive one intermediate of the formula to a chosen value
 }
 
 var c02rels = []string{"independent", "equal", "negation", "p-identity", "q-identity", "both-identity", "double-of", "neg-double-of", "share-y", "self", "nil"}
@@ -75,6 +76,14 @@ var c02 = gen.Register(&gen.Check[caseC02]{
 		}
 		c.P = pt.WithSteps(t, a, 3, false)
 		c.Q = pt.WithSteps(t, b, 3, false)
+		if c.Alias != "self" && !c.Nil && gen.Chance(t, "aim", 1, 3) {
+			switch c.Op {
+			case "add", "sub":
+				c.Aim = AimGen(numAddIntermediates).Draw(t, "aim")
+			case "double":
+				c.Aim = AimGen(numDoubleIntermediates).Draw(t, "aim")
+			}
+		}
 		return c
 	},
 	Fixed: func() []caseC02 {
@@ -101,7 +110,7 @@ var c02 = gen.Register(&gen.Check[caseC02]{
 		}
 		return out
 	},
-	Required: []string{"rel:independent", "rel:equal", "rel:negation", "rel:p-identity", "rel:q-identity", "rel:both-identity", "rel:self", "rel:nil", "rel:share-y", "rel:double-of", "result:identity"},
+	Required: []string{"aimed-intermediate", "rel:independent", "rel:equal", "rel:negation", "rel:p-identity", "rel:q-identity", "rel:both-identity", "rel:self", "rel:nil", "rel:share-y", "rel:double-of", "result:identity"},
 	Run: func(c caseC02, o *gen.Obs) error {
 		p, err := pt.Build(c.P)
 		if err != nil {
@@ -116,6 +125,25 @@ var c02 = gen.Register(&gen.Check[caseC02]{
 		if (p.RawKnown && !p.RawValid) || (q.RawKnown && !q.RawValid) {
 			o.Class("skipped:operand-invalid")
 			return nil
+		}
+		if c.Aim != nil && pt.Calibrated() && p.RawKnown && q.RawKnown {
+			// re-scale one operand so that the chosen intermediate of the formula equals tau (the value of the operand
+			// as a group element is unchanged)
+			tau := c.Aim.value()
+			switch c.Op {
+			case "add", "sub":
+				if iv := addIntermediates(p, q, c.Op == "sub")[c.Aim.I%numAddIntermediates]; iv.Sign() != 0 && tau.Sign() != 0 {
+					q = rescaleTo(q, ref.FMul(tau, ref.FInv0(iv)))
+					o.Class("aimed-intermediate")
+				}
+			case "double":
+				if iv := doubleIntermediates(p)[c.Aim.I%numDoubleIntermediates]; iv.Sign() != 0 && tau.Sign() != 0 {
+					if l2 := ref.FMul(tau, ref.FInv0(iv)); ref.IsSquare(l2) {
+						p = rescaleTo(p, ref.Sqrt(l2))
+						o.Class("aimed-intermediate")
+					}
+				}
+			}
 		}
 		o.Class("rel:" + c.Rel)
 		o.Class("op:" + c.Op)
